@@ -38,11 +38,15 @@ def init_sobol(u0=np.ndarray, lb=np.ndarray, ub=np.ndarray, plb=np.ndarray, pub=
         # Seed depends on u0
         str_seed = u0[0 : np.minimum(11, len(u0))].astype(np.uint64)
         # Pin the formatting so that the seed does not depend on np.set_printoptions
-        fmt = dict(max_line_width=75, threshold=1000, edgeitems=3, legacy=False)
-        if str_seed.ndim == 1:
-            str_seed = np.array2string(str_seed, **fmt)[1:-1]
-        else:
-            str_seed = np.array2string(str_seed, **fmt)[2:-2]
+        with np.printoptions(
+            precision=8, threshold=1000, edgeitems=3, linewidth=75,
+            suppress=False, nanstr="nan", infstr="inf", sign="-",
+            formatter=None, floatmode="maxprec", legacy=False,
+        ):
+            if str_seed.ndim == 1:
+                str_seed = np.array2string(str_seed)[1:-1]
+            else:
+                str_seed = np.array2string(str_seed)[2:-2]
         str_seed = np.array([ord(ch) for ch in str_seed])
         seed = np.prod(str_seed)
         seed = np.mod(seed, max_seed) + 1
